@@ -29,6 +29,8 @@ import Np.Model.SelectFns
 import Np.Model.BilinearFns
 import Np.Model.AdvIndexFns
 import Np.Model.ConstFns
+import Np.Model.ElemFns
+import Np.Model.ReduceFns2
 /-! line-protocol driver: one JSON case per line on stdin, the model's answer per line on stdout -/
 open Lean Np Np.Shape
 
@@ -575,6 +577,66 @@ def runCase (j : Json) : E Json := do
       pure (Json.mkObj [("status", "ok"), ("kind", "values"), ("shape", toJson [a.length]),
         ("values", toJson (List.zipWith (fun x y => ConstFns.iscloseQ x y rtol atol) a b))])
     | _ => throw s!"unknown constant function {fn}"
+  | "elemfn" =>
+    -- numpy's element-wise functions with broadcasting on integer arrays (Np/Model/ElemFns.lean)
+    let fn ← (← j.getObjVal? "fn").getStr?
+    let jInts := fun (x : Json) => do (← jList x).mapM fun v => v.getInt?
+    let sa ← jNats (← j.getObjVal? "sa")
+    let sb ← jNats (← j.getObjVal? "sb")
+    let xs ← jInts (← j.getObjVal? "xs")
+    let ys ← jInts (← j.getObjVal? "ys")
+    let none_ := Json.mkObj [("status", "ok"), ("kind", "none")]
+    let showI := fun (r : Option (List Nat × List Int)) => match r with
+      | some (s, v) => Json.mkObj [("status", "ok"), ("kind", "values"), ("shape", toJson s), ("values", toJson v)]
+      | none => none_
+    let showB := fun (r : Option (List Nat × List Bool)) => match r with
+      | some (s, v) => Json.mkObj [("status", "ok"), ("kind", "values"), ("shape", toJson s), ("values", toJson v)]
+      | none => none_
+    match fn with
+    | "add" => pure (showI (ElemFns.addF sa sb xs ys))
+    | "subtract" => pure (showI (ElemFns.subF sa sb xs ys))
+    | "multiply" => pure (showI (ElemFns.mulF sa sb xs ys))
+    | "maximum" => pure (showI (ElemFns.maximumF sa sb xs ys))
+    | "minimum" => pure (showI (ElemFns.minimumF sa sb xs ys))
+    | "floor_divide" => pure (showI (ElemFns.floorDivideF sa sb xs ys))
+    | "remainder" => pure (showI (ElemFns.remainderF sa sb xs ys))
+    | "power" => pure (showI (ElemFns.powerF sa sb xs ys))
+    | "equal" => pure (showB (ElemFns.equalF sa sb xs ys))
+    | "not_equal" => pure (showB (ElemFns.notEqualF sa sb xs ys))
+    | "less" => pure (showB (ElemFns.lessF sa sb xs ys))
+    | "less_equal" => pure (showB (ElemFns.lessEqualF sa sb xs ys))
+    | "greater" => pure (showB (ElemFns.greaterF sa sb xs ys))
+    | "greater_equal" => pure (showB (ElemFns.greaterEqualF sa sb xs ys))
+    | "logical_and" => pure (showB (ElemFns.logicalAndF sa sb xs ys))
+    | "logical_or" => pure (showB (ElemFns.logicalOrF sa sb xs ys))
+    | "logical_xor" => pure (showB (ElemFns.logicalXorF sa sb xs ys))
+    | _ => throw s!"unknown element-wise function {fn}"
+  | "reducetable2" =>
+    -- diff with prepend / append, ediff1d with to_begin / to_end, prod / mean over axis tuples (Np/Model/ReduceFns2.lean)
+    let fn ← (← j.getObjVal? "fn").getStr?
+    let shape ← jNats (← j.getObjVal? "shape")
+    let optShape := fun (k : String) => match j.getObjVal? k with
+      | .ok .null => (pure none : E (Option (List Nat)))
+      | .ok v => do pure (some (← jNats v))
+      | .error _ => pure none
+    let show3 := fun (s : List Nat) (t : List (List (Nat × Nat × Int))) =>
+      Json.mkObj [("status", "ok"), ("kind", "table3"), ("shape", toJson s),
+        ("W", Json.arr (t.map fun row => Json.arr (row.map fun e => Json.arr #[toJson e.1, toJson e.2.1, toJson e.2.2]).toArray).toArray)]
+    match fn with
+    | "diffpad" =>
+      match ReduceFns2.diffPadW shape (← jNat (← j.getObjVal? "n")) (← jNat (← j.getObjVal? "axis")) (← optShape "pre") (← optShape "post") with
+      | some (s, t) => pure (show3 s t)
+      | none => pure (Json.mkObj [("status", "ok"), ("kind", "none")])
+    | "ediff1dpad" => do
+      let nb ← jNat (← j.getObjVal? "nbegin")
+      let ne ← jNat (← j.getObjVal? "nend")
+      let t := ReduceFns2.ediff1dPadW shape nb ne
+      pure (show3 [t.length] t)
+    | "prodaxes" =>
+      match ReduceFns2.prodAxesG shape (← jNats (← j.getObjVal? "axes")) (jBoolD j "keepdims" false) with
+      | some (s, g) => pure (Json.mkObj [("status", "ok"), ("kind", "groups"), ("shape", toJson s), ("groups", toJson g)])
+      | none => pure (Json.mkObj [("status", "ok"), ("kind", "none")])
+    | _ => throw s!"unknown reduction {fn}"
   | "bilinear" =>
     let a ← parseArr (← j.getObjVal? "a")
     let b ← parseArr (← j.getObjVal? "b")
